@@ -105,7 +105,7 @@ const char* property_ids()
 std::string describe(const Case& c)
 {
     std::ostringstream o;
-    o << c.prop << " fixed_vector<" << (c.elem == 1 ? "MoTracked" : c.elem == 2 ? "NxTracked" : "Tracked") << ">:";
+    o << c.prop << " fixed_vector<" << (c.elem == 1 ? "MoTracked" : c.elem == 2 ? "NxTracked" : c.elem == 3 ? "CaTracked" : "Tracked") << ">:";
     for (auto& op : c.ops)
     {
         o << " " << code_name(op.code) << "(s" << op.a;
@@ -248,6 +248,8 @@ Case generate(vf::Src& src, const std::string& mode)
     c.elem = is07 ? (src.coin(25) ? 1 : 0) : (src.coin(40) ? 1 : 0);
     if (c.elem == 0 && src.coin(25))
         c.elem = 2;
+    else if (c.elem == 0 && src.coin(20))
+        c.elem = 3;
     int n = src.irange(1, 30);
     bool faults = !is07 && src.coin(25);
     for (int i = 0; i < n; ++i)
@@ -1075,10 +1077,21 @@ bool Runner<T>::step(const Op& op0, std::size_t index)
             pos = pos % sz;
             after.v[pos] = op.vals[0];
             // writes go through the references handed out by operator[] / at()
-            if (op.vals[0] % 2)
-                (*slot[a])[pos] = T(op.vals[0]);
+            if constexpr (std::is_move_assignable<T>::value)
+            {
+                if (op.vals[0] % 2)
+                    (*slot[a])[pos] = T(op.vals[0]);
+                else
+                    slot[a]->at(pos) = T(op.vals[0]);
+            }
             else
-                slot[a]->at(pos) = T(op.vals[0]);
+            {
+                const T fresh(op.vals[0]);
+                if (op.vals[0] % 2)
+                    (*slot[a])[pos] = fresh;
+                else
+                    slot[a]->at(pos) = fresh;
+            }
             break;
         }
         case EMPLACE_POS_ALIAS:
@@ -1361,10 +1374,21 @@ std::string check(const Case& c, vf::Ctx& ctx)
     tr::reg().reset();
     bool is07 = c.prop == "c07";
     ctx.tag("prop:" + c.prop);
-    ctx.tag(c.elem == 1 ? "elem:move-only" : c.elem == 2 ? "elem:copyable-noexcept" : "elem:copyable");
+    ctx.tag(c.elem == 1 ? "elem:move-only" : c.elem == 2 ? "elem:copyable-noexcept" :
+            c.elem == 3 ? "elem:copyable-not-move-assignable" : "elem:copyable");
     std::string msg;
     bool boundary, interesting;
-    if (c.elem == 2)
+#ifndef VF_NO_CATRACKED
+    if (c.elem == 3)
+    {
+        Runner<tr::CaTracked> r(ctx, is07);
+        msg = r.run(c);
+        boundary = r.boundary;
+        interesting = r.interesting07;
+    }
+    else
+#endif
+        if (c.elem == 2)
     {
         Runner<tr::NxTracked> r(ctx, is07);
         msg = r.run(c);
